@@ -255,4 +255,130 @@ Proof.
     rewrite HX, (app_assoc A Un), <- nlen_app. rewrite nnth_app_at_loc. cbn [bindo]. f_equal. apply N.eqb_neq. exact Hc0. }
   destruct pw as [[|? ?]|]; [|contradiction|]; rewrite B1; reflexivity.
 Qed.
+
+(* ---------- set_username ---------- *)
+Lemma set_username_unfold u un : set_username dbg u un =
+  (c <- cannot_have_credentials_or_port u ;;
+   if c then Some (u, SErrUnit) else
+   let username_start := scheme_end u + 3 in
+   (if dbg then x <- u_slice u (scheme_end u) username_start ;; assert_o (list_eqb x s_css) else Some tt) ;;;
+   cur <- u_slice u username_start (username_end u) ;;
+   if list_eqb cur (utf8_encode un) then Some (u, SOk) else
+   after_username <- u_slice_from u (username_end u) ;;
+   let s := push_encoded T_USERINFO (truncate (ser u) username_start) un in
+   let removed0 := username_end u in
+   let new_ue := nlen s in
+   let new_empty := new_ue =? username_start in
+   let '(s', removed, added) := un_pick new_empty after_username s removed0 new_ue in
+   hs <- adjust dbg (host_start u) removed added ;;
+   he <- adjust dbg (host_end u) removed added ;;
+   ps <- adjust dbg (path_start u) removed added ;;
+   qs <- adjust_opt dbg (query_start u) removed added ;;
+   fs <- adjust_opt dbg (fragment_start u) removed added ;;
+   Some (mkUrl s' (scheme_end u) new_ue hs he (hosti u) (port u) ps qs fs, SOk)).
+Proof. reflexivity. Qed.
+
+Lemma un_pick_at ne r s r0 nu : un_pick ne (64 :: r) s r0 nu = if ne then (s ++ r, r0 + 1, nu) else (s ++ 64 :: r, r0, nu).
+Proof. destruct ne; reflexivity. Qed.
+Lemma un_pick_colon ne r s r0 nu : un_pick ne (58 :: r) s r0 nu = (s ++ 58 :: r, r0, nu).
+Proof. destruct ne; reflexivity. Qed.
+
+(* everything in front of the case split *)
+Lemma set_username_sh_pre Un Ur un : usv_list un ->
+  cannot_have_credentials_or_port (sh_url Un Ur) = Some false -> list_eqb Un (utf8_encode un) = false ->
+  set_username dbg (sh_url Un Ur) un =
+  (let '(s', removed, added) := un_pick (nlen (A ++ uenc un) =? nlen sch + 3) (Ur ++ X) (A ++ uenc un) (nlen A + nlen Un) (nlen (A ++ uenc un)) in
+   hs <- adjust dbg (nlen A + nlen Un + nlen Ur) removed added ;;
+   he <- adjust dbg (nlen A + nlen Un + nlen Ur + dh) removed added ;;
+   ps <- adjust dbg (nlen A + nlen Un + nlen Ur + dp) removed added ;;
+   qs <- adjust_opt dbg (option_map (N.add (nlen A + nlen Un + nlen Ur)) dq) removed added ;;
+   fs <- adjust_opt dbg (option_map (N.add (nlen A + nlen Un + nlen Ur)) df) removed added ;;
+   Some (mkUrl s' (nlen sch) (nlen (A ++ uenc un)) hs he hi pt ps qs fs, SOk)).
+Proof.
+  intros Hu Hc He. rewrite set_username_unfold. rewrite Hc. cbn [bindo]. cbv zeta.
+  change (host_start (sh_url Un Ur)) with (nlen A + nlen Un + nlen Ur).
+  change (username_end (sh_url Un Ur)) with (nlen A + nlen Un).
+  change (host_end (sh_url Un Ur)) with (nlen A + nlen Un + nlen Ur + dh).
+  change (path_start (sh_url Un Ur)) with (nlen A + nlen Un + nlen Ur + dp).
+  change (query_start (sh_url Un Ur)) with (option_map (N.add (nlen A + nlen Un + nlen Ur)) dq).
+  change (fragment_start (sh_url Un Ur)) with (option_map (N.add (nlen A + nlen Un + nlen Ur)) df).
+  change (scheme_end (sh_url Un Ur)) with (nlen sch). change (hosti (sh_url Un Ur)) with hi. change (port (sh_url Un Ur)) with pt.
+  unfold u_slice, u_slice_from, truncate. rewrite sh_ser.
+  assert (nlen (A ++ Un ++ Ur ++ X) = nlen sch + 3 + nlen Un + nlen Ur + nlen X) as LS by (rewrite !nlen_app, A_len; lia).
+  assert ((if dbg then x <- slice_o (A ++ Un ++ Ur ++ X) (nlen sch) (nlen sch + 3) ;; assert_o (list_eqb x s_css) else Some tt) = Some tt) as Ed.
+  { destruct dbg; [|reflexivity]. rewrite slice_o_some by lia. cbn [bindo].
+    replace (nlen sch + 3 - nlen sch) with 3 by lia. unfold A. rewrite <- app_assoc. rewrite nskipn_app_len. reflexivity. }
+  rewrite Ed. cbn [bindo].
+  rewrite slice_o_some by (rewrite A_len in *; lia).
+  replace (nlen A + nlen Un - (nlen sch + 3)) with (nlen Un) by (rewrite A_len; lia).
+  rewrite <- A_len. rewrite nskipn_app_len, nfirstn_app_len. cbn [bindo]. rewrite He.
+  rewrite slice_from_o_some by (rewrite A_len in *; lia). rewrite nskipn_2. cbn [bindo].
+  rewrite nfirstn_app_len. rewrite push_encoded_eq by exact Hu. fold (uenc un). rewrite A_len. reflexivity.
+Qed.
+
+Lemma set_username_same Un Ur un :
+  cannot_have_credentials_or_port (sh_url Un Ur) = Some false -> list_eqb Un (utf8_encode un) = true ->
+  set_username dbg (sh_url Un Ur) un = Some (sh_url Un Ur, SOk).
+Proof.
+  intros Hc He. rewrite set_username_unfold, Hc. cbn [bindo]. cbv zeta.
+  change (username_end (sh_url Un Ur)) with (nlen A + nlen Un). change (scheme_end (sh_url Un Ur)) with (nlen sch).
+  unfold u_slice. rewrite sh_ser.
+  assert (nlen (A ++ Un ++ Ur ++ X) = nlen sch + 3 + nlen Un + nlen Ur + nlen X) as LS by (rewrite !nlen_app, A_len; lia).
+  assert ((if dbg then x <- slice_o (A ++ Un ++ Ur ++ X) (nlen sch) (nlen sch + 3) ;; assert_o (list_eqb x s_css) else Some tt) = Some tt) as Ed.
+  { destruct dbg; [|reflexivity]. rewrite slice_o_some by lia. cbn [bindo].
+    replace (nlen sch + 3 - nlen sch) with 3 by lia. unfold A. rewrite <- app_assoc. rewrite nskipn_app_len. reflexivity. }
+  rewrite Ed. cbn [bindo]. rewrite slice_o_some by (rewrite ?A_len in *; lia).
+  replace (nlen A + nlen Un - (nlen sch + 3)) with (nlen Un) by (rewrite A_len; lia).
+  rewrite <- A_len. rewrite nskipn_app_len, nfirstn_app_len. cbn [bindo]. rewrite He. reflexivity.
+Qed.
+
+(* user name followed by '@' (no password) *)
+Theorem set_username_user_sh Un un : usv_list un ->
+  cannot_have_credentials_or_port (sh_url Un [64]) = Some false ->
+  set_username dbg (sh_url Un [64]) un
+  = Some (if list_eqb Un (utf8_encode un) then sh_url Un [64]
+          else sh_url (uenc un) (match uenc un with [] => [] | _ => [64] end), SOk).
+Proof.
+  intros Hu Hc. destruct (list_eqb Un (utf8_encode un)) eqn:He.
+  - rewrite (set_username_same Un [64] un Hc He). reflexivity.
+  - rewrite (set_username_sh_pre Un [64] un Hu Hc He). cbn [app]. rewrite un_pick_at.
+    destruct (uenc un) as [|e0 er] eqn:Ee.
+    + replace (nlen (A ++ []) =? nlen sch + 3) with true by (symmetry; apply N.eqb_eq; rewrite app_nil_r; apply A_len).
+      rewrite (tail_eval (nlen A + nlen Un + nlen [64]) (nlen A + nlen (@nil N) + nlen (@nil N))) by lens.
+      unfold sh_url. do 2 f_equal. f_equal; [rewrite app_nil_r; reflexivity | lens].
+    + replace (nlen (A ++ e0 :: er) =? nlen sch + 3) with false by (symmetry; apply N.eqb_neq; rewrite nlen_app, A_len, nlen_cons; lia).
+      rewrite (tail_eval (nlen A + nlen Un + nlen [64]) (nlen A + nlen (e0 :: er) + nlen [64])) by lens.
+      unfold sh_url. do 2 f_equal. f_equal; [rewrite <- !app_assoc; reflexivity | lens].
+Qed.
+
+(* user name followed by ':' password '@' *)
+Theorem set_username_pw_sh Un P un : usv_list un ->
+  cannot_have_credentials_or_port (sh_url Un (58 :: P ++ [64])) = Some false ->
+  set_username dbg (sh_url Un (58 :: P ++ [64])) un
+  = Some (if list_eqb Un (utf8_encode un) then sh_url Un (58 :: P ++ [64]) else sh_url (uenc un) (58 :: P ++ [64]), SOk).
+Proof.
+  intros Hu Hc. set (Ur := 58 :: P ++ [64]) in *. destruct (list_eqb Un (utf8_encode un)) eqn:He.
+  - rewrite (set_username_same Un Ur un Hc He). reflexivity.
+  - rewrite (set_username_sh_pre Un Ur un Hu Hc He). unfold Ur at 1. cbn [app]. rewrite un_pick_colon.
+    rewrite (tail_eval (nlen A + nlen Un + nlen Ur) (nlen A + nlen (uenc un) + nlen Ur)) by lens.
+    unfold sh_url. do 2 f_equal. f_equal; [unfold Ur; rewrite <- !app_assoc; cbn [app]; rewrite <- !app_assoc; reflexivity | lens].
+Qed.
+
+(* no userinfo at all: X starts with a byte that is neither '@' nor ':' (a host text does) *)
+Theorem set_username_none_sh c0 R un : usv_list un -> X = c0 :: R -> c0 <> 64 -> c0 <> 58 ->
+  cannot_have_credentials_or_port (sh_url [] []) = Some false ->
+  set_username dbg (sh_url [] []) un
+  = Some (match un with [] => sh_url [] [] | _ => sh_url (uenc un) [64] end, SOk).
+Proof.
+  intros Hu HX H64 H58 Hc. destruct un as [|u0 ur].
+  - rewrite (set_username_same [] [] [] Hc eq_refl). reflexivity.
+  - assert (list_eqb [] (utf8_encode (u0 :: ur)) = false) as He.
+    { destruct (utf8_encode (u0 :: ur)) eqn:E; [|reflexivity]. apply (proj1 (utf8_encode_nil_iff' _)) in E. discriminate E. }
+    rewrite (set_username_sh_pre [] [] (u0 :: ur) Hu Hc He). cbn [app]. rewrite HX.
+    rewrite un_pick_other by assumption.
+    destruct (uenc (u0 :: ur)) as [|e0 er] eqn:Ee; [apply (proj1 (uenc_nil_iff _)) in Ee; discriminate Ee|].
+    replace (nlen (A ++ e0 :: er) =? nlen sch + 3) with false by (symmetry; apply N.eqb_neq; rewrite nlen_app, A_len, nlen_cons; lia).
+    rewrite (tail_eval (nlen A + nlen (@nil N) + nlen (@nil N)) (nlen A + nlen (e0 :: er) + nlen [64])) by lens.
+    unfold sh_url. rewrite HX. do 2 f_equal. f_equal; [rewrite <- !app_assoc; reflexivity | lens].
+Qed.
 End Shift.
